@@ -391,6 +391,13 @@ def tree_st(draw, depth=0):
                 continue
             titles.add(key)
             children.append(ch)
+        if draw(st.integers(0, 4)) == 0:
+            # sibling sections with one and the same header (several &COLVAR blocks in SUBSYS, &FIXED_ATOMS / &COLLECTIVE in
+            # CONSTRAINT, ...): legal and usual; no caller addresses them, they are carried over as they are
+            rt = draw(st.sampled_from(["COLVAR", "FIXED_ATOMS", "COLLECTIVE"]))
+            rp = [draw(st.sampled_from(["ON", "1"]))] if draw(st.integers(0, 3)) == 0 else []
+            for i in range(draw(st.integers(2, 3))):
+                children.insert(draw(st.integers(0, len(children))), {"title": rt, "params": list(rp), "data": [f"ATOMS {i + 1} {i + 2}"] + ([f"TARGET 0.{i}"] if draw(st.booleans()) else []), "children": []})
     return {"title": title, "params": params, "data": data, "children": children}
 
 
